@@ -22,6 +22,7 @@ def origValue (i arg : Nat) : Nat :=
 def fakeValue (i site : Nat) : Nat :=
   match i, site with
   | 0, _ => 0
+  | 1, 2 => 7900 | 2, 2 => 7900
   | 1, 0 => 7001 | 1, _ => 7002
   | 2, 0 => 7101 | 2, _ => 7102
   | 3, 0 => fnv32 "fakeA" | 3, _ => fnv32 "fakeB"
